@@ -347,6 +347,7 @@ struct cfg {
 #define F_CBX 1     /* ping / pong / resource-user-data-release handlers registered, keep-alive on, client session to a raw UDP peer */
 #define F_TCP 2     /* + CoAP-over-TCP client session to a raw stream peer (CSM, 7.02 Ping, 7.03 Pong) */
 #define F_PERSIST 4 /* + observe persist tracking call-outs (coap_persist_track_funcs) registered after set-up */
+#define F_NEST 8    /* NACK / event / ping / pong callbacks delete a resource with user data: a call-out nested inside a callback */
 #define KEEPALIVE_S 2
 #define SLEEP_MS 2100 /* > keep-alive period and > idle timeout of the cache entry */
 #define POST_ADVANCE_MS 1500u /* < keep-alive period: virtual time that may pass once all API threads have finished */
@@ -434,6 +435,25 @@ reenter(coap_session_t *s) {
   reentry_returns++;
 }
 
+/* A callback inside a callback: the resource's user-data release call-out runs while the outer callback is still in
+ * progress, and the outer callback goes on using the API afterwards. */
+static int nest_tag, nest_depth, nested_seen;
+static void
+nested_callout(coap_session_t *s) {
+  if (!(C->flags & F_NEST) || tearing_down || nest_depth)
+    return;
+  nest_depth++;
+  coap_resource_t *r = coap_resource_init(coap_make_str_const("nest"), 0);
+  if (r) {
+    coap_resource_set_userdata(r, &nest_tag);
+    coap_add_resource(ctx, r);
+    coap_delete_resource(ctx, r); /* => release_userdata_cb, nested */
+  }
+  nest_depth--;
+  reenter(s);
+  nested_seen++;
+}
+
 static coap_response_t
 resp_handler(coap_session_t *session, const coap_pdu_t *sent, const coap_pdu_t *received, const coap_mid_t mid) {
   (void)sent;
@@ -472,6 +492,7 @@ nack_handler(coap_session_t *session, const coap_pdu_t *sent, const coap_nack_re
   (void)coap_session_get_addr_local(session);
   if (C->flags & F_CBX)
     reenter(session);
+  nested_callout(session);
   cb_leave();
 }
 static int
@@ -485,6 +506,7 @@ event_handler(coap_session_t *session, const coap_event_t event) {
   (void)coap_session_get_app_data(session);
   if (C->flags & F_CBX)
     reenter(session);
+  nested_callout(session);
   cb_leave();
   return 0;
 }
@@ -501,6 +523,7 @@ ping_handler(coap_session_t *session, const coap_pdu_t *received, const coap_mid
              coap_session_get_type(session) == COAP_SESSION_TYPE_CLIENT ? "client" : "server",
              coap_session_get_proto(session) == COAP_PROTO_TCP ? "tcp" : "udp");
   reenter(session);
+  nested_callout(session);
   cb_leave();
 }
 static void
@@ -514,6 +537,7 @@ pong_handler(coap_session_t *session, const coap_pdu_t *received, const coap_mid
              coap_session_get_proto(session) == COAP_PROTO_TCP ? "tcp 7.03" : "udp RST for keep-alive",
              session == cs ? "own endpoint" : "raw");
   reenter(session);
+  nested_callout(session);
   cb_leave();
 }
 static int cache_tag[MAXT], res_tag[MAXT], large_tag[MAXT];
@@ -531,7 +555,10 @@ release_userdata_cb(void *data) {
   cb_enter("resource-release-userdata");
   sched_point("in-callback:resource-release-userdata");
   callout_seen++;
-  vx_observe("cb resource-release-userdata in %s (resource of w%d)", my_id >= 0 ? T[my_id].name : "main", (int)((int *)data - res_tag));
+  if (data == (void *)&nest_tag)
+    vx_observe("cb resource-release-userdata in %s (nested inside %s)", my_id >= 0 ? T[my_id].name : "main", "another callback");
+  else
+    vx_observe("cb resource-release-userdata in %s (resource of w%d)", my_id >= 0 ? T[my_id].name : "main", (int)((int *)data - res_tag));
   reenter(cs);
   cb_leave();
 }
@@ -1053,7 +1080,7 @@ run(void *arg) {
   io_deadline = 0;
   post_advanced = 0;
   tearing_down = 0;
-  ping_seen = pong_seen = callout_seen = reentry_returns = raw_rst_sent = raw_pong_sent = 0;
+  ping_seen = pong_seen = callout_seen = nested_seen = nest_depth = reentry_returns = raw_rst_sent = raw_pong_sent = 0;
   dead = rawc = tcps = NULL;
   tcp_stream = NULL;
   preemptions = 0;
@@ -1098,7 +1125,10 @@ run(void *arg) {
   }
 #endif
   /* (requests answered is reported in the outcome histogram; it is not a verdict: the I/O thread's loop has a fixed horizon) */
-  if (C->flags & F_CBX)
+  if (C->flags & F_NEST)
+    vx_outcome("req=%d resp=%d nack=%d ping=%d pong=%d callouts=%d nested=%d", req_sent, resp_seen, nack_seen, ping_seen, pong_seen, callout_seen,
+               nested_seen);
+  else if (C->flags & F_CBX)
     vx_outcome("req=%d resp=%d nack=%d ping=%d pong=%d callouts=%d", req_sent, resp_seen, nack_seen, ping_seen, pong_seen, callout_seen);
   else
     vx_outcome("req=%d resp=%d nack=%d", req_sent, resp_seen, nack_seen);
@@ -1141,7 +1171,8 @@ add(int nw, int a0, int a1, int b0, int b1, int c0, int c1, int bound) {
     snprintf(d[w], sizeof d[w], "%s%s%s", c.ops[w][0] >= 0 ? op_names[c.ops[w][0]] : "-", c.ops[w][1] >= 0 ? "+" : "",
              c.ops[w][1] >= 0 ? op_names[c.ops[w][1]] : "");
   if (add_flags)
-    snprintf(c.name, sizeof c.name, "c13x" C13_BUILD ":%s%s:w=%d:%s|%s|%s:B=%d", add_flags & F_TCP ? "udp+tcp" : "udp", add_flags & F_PERSIST ? "+persist" : "", nw,
+    snprintf(c.name, sizeof c.name, "c13x" C13_BUILD ":%s%s%s:w=%d:%s|%s|%s:B=%d", add_flags & F_TCP ? "udp+tcp" : "udp", add_flags & F_PERSIST ? "+persist" : "",
+             add_flags & F_NEST ? "+nest" : "", nw,
              d[0], d[1], nw > 2 ? d[2] : "-", bound);
   else
     snprintf(c.name, sizeof c.name, "c13" C13_BUILD ":w=%d:%s|%s|%s:B=%d", nw, d[0], d[1], nw > 2 ? d[2] : "-", bound);
@@ -1219,6 +1250,13 @@ main(int argc, char **argv) {
   add(2, OP_NOTIFY, -1, OP_REF, -1, -1, -1, BX);                /* track-observe-value */
   add(2, OP_DEREGISTER, -1, OP_REF, -1, -1, -1, BX);            /* observe-deleted */
   add(2, OP_RESOURCE_UD, -1, OP_REF, -1, -1, -1, BX);           /* resource-deleted */
+  /* a call-out nested inside a NACK / event / ping / pong callback, after which the outer callback uses the API again */
+  add_flags = F_CBX | F_NEST;
+  add(2, OP_SEND_PING, -1, OP_SEND, -1, -1, -1, BX);  /* ping handler, RST => NACK callback */
+  add(2, OP_SLEEP, OP_REF, OP_NOTIFY, -1, -1, -1, BX); /* keep-alive: ping + pong handlers in the I/O thread */
+  add(2, OP_NEWPEER, -1, OP_NOTIFY, -1, -1, -1, BX);   /* SERVER_SESSION_NEW event in the I/O thread */
+  add_flags = F_CBX | F_TCP | F_NEST;
+  add(2, OP_SLEEP, OP_REF, OP_SEND, -1, -1, -1, BX);   /* + TCP events and 7.03 */
   add_flags = 0;
   int nx = 0;
   for (int i = 0; i < ncfgs; i++)
